@@ -14,7 +14,6 @@ import (
 	"strconv"
 	"strings"
 	"time"
-	"unicode/utf8"
 
 	"golang.org/x/tools/go/ssa"
 )
@@ -948,13 +947,6 @@ func init() {
 		}
 		return tuple{int64(d), nilError()}
 	}
-	externals["unicode/utf8.ValidString"] = func(fr *frame, args []value) value {
-		if s, ok := deEnum(args[0]).(string); ok {
-			return utf8.ValidString(s)
-		}
-		unsupported("utf8.ValidString on a symbolic string")
-		return nil
-	}
 	_ = sort.Strings
 }
 
@@ -1039,7 +1031,11 @@ func (it *symstrIter) next() tuple {
 	if pkg == nil {
 		unsupported("range over a symbolic string needs unicode/utf8 in the program")
 	}
-	r := call(curInterp, nil, token.NoPos, pkg.Func("DecodeRuneInString"), []value{normStr(it.s[it.i:])}).(tuple)
+	hi := it.i + 4
+	if hi > len(it.s) {
+		hi = len(it.s)
+	}
+	r := call(curInterp, nil, token.NoPos, pkg.Func("DecodeRuneInString"), []value{normStr(it.s[it.i:hi])}).(tuple)
 	at := it.i
 	it.i += r[1].(int)
 	return tuple{true, at, r[0]}
